@@ -95,6 +95,23 @@ func sidCase(auth uint64, subs []uint32) {
 	}
 }
 
+// sidCaseQuiet is the value check alone (no trailing-byte variants, no per-case bookkeeping), for
+// dense sweeps.
+func sidCaseQuiet(auth uint64, subs []uint32) {
+	raw := encodeSID(1, auth, subs)
+	want := refSIDString(auth, subs)
+	var got string
+	p, pv, st := mon.Guard(func() { got = ldap.ParseSIDFromBytes(raw) })
+	sweepEvals++
+	if p {
+		r.Violation("ldap.ParseSIDFromBytes:panic:"+mon.PanicClass(pv)+":"+countClass(len(subs)), fmt.Sprintf("panic %v at %s on well-formed SID %s (%s)", pv, mon.TopLibFrame(st), mon.Hex(raw), want), map[string]any{"sid_hex": mon.FullHex(raw), "expected": want})
+	} else if got != want {
+		r.Violation("ldap.ParseSIDFromBytes:value:"+countClass(len(subs)), fmt.Sprintf("SID %s: got %q want %q", mon.Hex(raw), got, want), map[string]any{"sid_hex": mon.FullHex(raw), "expected": want})
+	}
+}
+
+var sweepEvals int
+
 // every truncation of a well-formed SID is not a SID: "" and no crash
 func sidTruncations(auth uint64, subs []uint32) {
 	raw := encodeSID(1, auth, subs)
@@ -168,6 +185,29 @@ func sidWorkload() {
 			}
 		}
 	}
+	// every SID with one small sub-authority under the authorities that have well-known SIDs
+	// (integrity levels 0x1000·k and 0x2100 under 16, S-1-5-<n>, S-1-18-<n>, ...): a shortcut
+	// table for well-known SIDs with a single slipped entry shows only on that entry
+	for _, a := range []uint64{0, 1, 2, 3, 4, 5, 9, 11, 12, 15, 16, 18} {
+		for v := uint32(0); v <= uint32(r.Pick(33000, 70000)); v++ {
+			sidCaseQuiet(a, []uint32{v})
+		}
+		for v := uint64(0); v < 1<<24; v += 0x100 { // multiples of 256 (integrity levels are 0x1000·k, 0x2100)
+			sidCaseQuiet(a, []uint32{uint32(v)})
+		}
+		for v := uint64(1 << 24); v < 1<<32; v += 0x10000 {
+			sidCaseQuiet(a, []uint32{uint32(v)})
+		}
+	}
+	for v := uint32(0); v <= 2000; v++ { // S-1-5-32-<alias>, S-1-5-64-<n>, S-1-5-21-<n> with two sub-authorities
+		sidCaseQuiet(5, []uint32{32, v})
+		sidCaseQuiet(5, []uint32{64, v})
+		sidCaseQuiet(5, []uint32{80, v})
+		sidCaseQuiet(15, []uint32{2, v})
+		sidCaseQuiet(15, []uint32{3, v})
+	}
+	r.Eval(sweepEvals)
+	r.Count("dense_single_subauthority_sids", sweepEvals)
 	// seeded
 	for t := 0; t < r.Pick(40000, 800000); t++ {
 		n := rng.IntN(16)
